@@ -172,17 +172,17 @@ fn families(tier: Tier) -> Vec<(&'static str, Vec<String>, usize)> {
             "ZADD k1{f} {p}",
             &[
                 ("f", &["", " NX", " XX", " GT", " LT", " CH", " XX CH", " GT CH", " LT CH", " NX XX", " GT LT", " NX GT", " XX GT"]),
-                ("p", &["1 a", "2 a", "0 b"]),
+                ("p", &["1 a", "2 a", "0 b", "1 b"]),
             ],
         );
-        v.extend(prod("ZADD k1 {p}", &[("p", &["-inf c", "inf c", "1.5 a 0 b", "nan a", "1e-20 d", "2e-20 e", "1 a 2 a", "x a", "1 \\xff", "1 \\xfe", "3 \"\"", "1", "1e21 g"])]));
+        v.extend(prod("ZADD k1 {p}", &[("p", &["-inf c", "inf c", "1.5 a 0 b", "1 a 1 b 1 c", "nan a", "1e-20 d", "2e-20 e", "1 a 2 a", "x a", "1 \\xff", "1 \\xfe", "3 \"\"", "1", "1e21 g"])]));
         v
     };
     out.push((
         "zsets",
         fam(
             &[
-                "ZREM k1 a", "ZREM k1 a b", "ZREM k1 z", "ZCARD k1", "ZSCORE k1 a", "ZSCORE k1 z", "ZSCORE k1 g", "ZSCORE k1 d", "ZRANK k1 a", "ZRANK k1 b", "ZRANK k1 z",
+                "ZREM k1 a", "ZREM k1 a b", "ZREM k1 z", "ZCARD k1", "ZSCORE k1 a", "ZSCORE k1 z", "ZSCORE k1 g", "ZSCORE k1 d", "ZRANK k1 a", "ZRANK k1 b", "ZRANK k1 c", "ZRANK k1 z",
                 "ZRANGE k1 0 -1", "ZRANGE k1 0 -1 WITHSCORES", "ZRANGE k1 1 1", "ZRANGE k1 -2 -1", "ZRANGE k1 2 1", "ZRANGE k1 0 0 WITHSCORES", "ZRANGE k1 0 -1 withscores",
                 "ZRANGE k1 0 -1 BOGUS", "ZREVRANGE k1 0 -1 WITHSCORES", "ZREVRANGE k1 0 0", "ZREVRANGE k1 -100 100",
                 "ZCOUNT k1 -inf +inf", "ZCOUNT k1 1 2", "ZCOUNT k1 (1 2", "ZCOUNT k1 1 (2", "ZCOUNT k1 x 1", "ZCOUNT k1 2 1", "ZCOUNT k1 (1 (1",
